@@ -184,8 +184,14 @@ class Engine:
             if v.kind in ("dict", "set"):
                 if "card" in rec:
                     return rec["card"] != 0
-                h = self.hooks.get("truth")
-                raise Unsupported(f"truthiness of {v.kind} without cardinality")
+                if rec.get("lazy"):
+                    return False
+                if rec.get("pure"):
+                    if any(isinstance(x, tuple) for _, x in rec["pyitems"]):
+                        raise Unsupported("truthiness of a record with conditional entries")
+                    return len(rec["pyitems"]) > 0
+                k = z3.Const(fresh_name("tk"), rec["dom"].sort().domain())
+                return z3.Exists([k], z3.Select(rec["dom"], k))          # non-empty: some key is present
             return True
         if isinstance(v, VRef):
             h = self.hooks.get("truth_ref")
@@ -247,6 +253,11 @@ class Engine:
                 return True
             raise Unsupported("structural equality of containers")
         if isinstance(a, (VObj, VRef)) and isinstance(b, (VObj, VRef)):
+            o, r = (a, b) if isinstance(a, VObj) else (b, a)
+            if o.kind == "obj" and isinstance(r, VRef):
+                from .values import ident_of
+                # a reference read from the heap may be this very (materialised) object: compare with its symbolic identity
+                return ident_of(o.oid) == r.t
             return False  # materialised objects are distinct from symbolic ones by construction
         if isinstance(a, VBool) and isinstance(b, VBool):
             return a.t == b.t
@@ -521,7 +532,17 @@ class Engine:
     def e_JoinedStr(self, node, st, fid):
         subs = [v.value for v in node.values if isinstance(v, ast.FormattedValue)]
         outs = self.eval_many(subs, st, fid)
-        return self.bind(outs, lambda s, vs: [("ok", s, VOpaque("fstring"))])
+
+        def mk(s, vs):
+            # hook "fstring" / "joined_str" (eng, st, node, values of the formatted sub-expressions in order) may give the string a
+            # meaning (e.g. an identifier built by concatenation); without it an f-string is an opaque value (messages)
+            h = self.hooks.get("fstring") or self.hooks.get("joined_str")
+            if h:
+                r = h(self, s, node, vs)
+                if r is not None:
+                    return r
+            return [("ok", s, VOpaque("fstring"))]
+        return self.bind(outs, mk)
 
     def e_Tuple(self, node, st, fid):
         if any(isinstance(e, ast.Starred) for e in node.elts):
@@ -986,6 +1007,9 @@ class Engine:
         from . import builtins as B
         if isinstance(f, VFunc):
             if f.kind == "closure":
+                con = self.nested_contract(f.a)
+                if con is not None:
+                    return self.apply_contract(st, con, pos, kw)      # a nested function that is itself under contract: modular
                 return self.call_closure(st, f.a, f.b, pos, kw)
             if f.kind == "builtin":
                 return B.BUILTINS[f.a](self, st, pos, kw)
@@ -1033,6 +1057,23 @@ class Engine:
             if r is not None:
                 return r
         raise Unsupported(f"call of {f!r}"[:300])
+
+    def nested_contract(self, fn):
+        """The contract of a function NESTED in the function under verification (qualified name `<outer>.<name>`, same module, the
+        very FunctionDef node that is being called), if it has one and has no free variables of its own (`closure=`): a call of it
+        is then replaced by its contract, like any other call; otherwise None (the nested function is inlined)."""
+        cur = self.cur_contract
+        if cur is None or not isinstance(fn, ast.FunctionDef):
+            return None
+        qual = f"{cur.qual}.{fn.name}"
+        for con in self.reg.contracts.values():
+            if con.module == cur.module and con.qual == qual and not con.closure and con.key not in self.reg.inline:
+                try:
+                    if source.module(con.module).find(con.qual) is fn:
+                        return con
+                except KeyError:
+                    pass
+        return None
 
     def construct(self, st, clsname, pos, kw):
         from . import builtins as B
